@@ -15,6 +15,11 @@ from .dynamic import DynamicConnectLayer
 from .join import to_hash_id
 
 
+# module-level, so that the compiled functions can be pickled
+def _sorted_keys(mapping):
+    return tuple(sorted(mapping))
+
+
 class GroupBy(DynamicConnectLayer):
     def __init__(self, by: Union[str, Sequence[str], Callable]):
         self.by = by
@@ -77,7 +82,7 @@ class GroupBy(DynamicConnectLayer):
         # update ids
         output_ids = Node(keys_name, details)
         outputs.append(output_ids)
-        edges.append(FunctionEdge(lambda x: tuple(sorted(x)), arity=1).bind(mapping_node, output_ids))
+        edges.append(FunctionEdge(_sorted_keys, arity=1).bind(mapping_node, output_ids))
 
         return EdgesBag(
             [changed_input], outputs, edges, None, persistent=main.persistent,
